@@ -59,6 +59,7 @@ type Cfg struct {
 	Icpt     SMap   `json:"icpt"`
 	Domain   string `json:"domain"`
 	Cors     Cors   `json:"cors"`
+	CorsPre  *Cors  `json:"corspre"` // an EARLIER WithCORS option in the same option list: the later one (Cors) must win
 	Recovery bool   `json:"recovery"`
 }
 
@@ -79,51 +80,52 @@ type Pool struct {
 }
 
 type Op struct {
-	Op      string    `json:"op"`
-	Inst    string    `json:"inst"`
-	Pat     string    `json:"pat"`
-	Methods []string  `json:"methods"`
-	Mws     []string  `json:"mws"`
-	Prefix  string    `json:"prefix"`
-	Strict  bool      `json:"strict"`
-	Params  SMap      `json:"params"`
-	Chain   []ChainEl `json:"chain"`
-	Fid     string    `json:"fid"` // facade object (created by an earlier "facade" op) this call goes through
-	Res     bool      `json:"res"` // last chain element is a Resource
-	Prog    []Step    `json:"prog"`
-	Method  string    `json:"method"`
-	Path    string    `json:"path"`
-	Host    string    `json:"host"`
-	Hdr     SMap      `json:"hdr"`
-	Fault   string    `json:"fault"`
-	Faults  SMap      `json:"faults"`
-	Val     string    `json:"val"`
-	Cfg     *Cfg      `json:"cfg"`
-	M       json.RawMessage `json:"m"` // matcher expression
-	Body    string    `json:"body"`
-	Flag    bool      `json:"flag"`
-	Key     string    `json:"key"`
-	Domains []string  `json:"domains"`
-	Versions []string `json:"versions"`
-	Progs   [][]Op    `json:"progs"`
-	N       int       `json:"n"`
+	Op       string          `json:"op"`
+	Inst     string          `json:"inst"`
+	Pat      string          `json:"pat"`
+	Methods  []string        `json:"methods"`
+	Mws      []string        `json:"mws"`
+	Prefix   string          `json:"prefix"`
+	Strict   bool            `json:"strict"`
+	Params   SMap            `json:"params"`
+	Chain    []ChainEl       `json:"chain"`
+	Parent   string          `json:"parent"` // facade op: make the object from this stored object (last chain element only)
+	Fid      string          `json:"fid"`    // facade object (created by an earlier "facade" op) this call goes through
+	Res      bool            `json:"res"`    // last chain element is a Resource
+	Prog     []Step          `json:"prog"`
+	Method   string          `json:"method"`
+	Path     string          `json:"path"`
+	Host     string          `json:"host"`
+	Hdr      SMap            `json:"hdr"`
+	Fault    string          `json:"fault"`
+	Faults   SMap            `json:"faults"`
+	Val      string          `json:"val"`
+	Cfg      *Cfg            `json:"cfg"`
+	M        json.RawMessage `json:"m"` // matcher expression
+	Body     string          `json:"body"`
+	Flag     bool            `json:"flag"`
+	Key      string          `json:"key"`
+	Domains  []string        `json:"domains"`
+	Versions []string        `json:"versions"`
+	Progs    [][]Op          `json:"progs"`
+	N        int             `json:"n"`
 }
 
 type Case struct {
-	Fam     string `json:"fam"`
-	Cfg     Cfg    `json:"cfg"`
-	Ops     []Op   `json:"ops"`
-	Progs   [][]Op `json:"progs"`  // conc family: one op list per goroutine
-	N       int    `json:"n"`      // conc family: logged iterations
-	Stress  int    `json:"stress"` // conc family: unlogged iterations
-	Procs   int    `json:"procs"`  // conc family: GOMAXPROCS of the child
-	Keys    []string `json:"keys"` // params family: keys observed after every op
-	Reqs    []Op   `json:"reqs"` // requests executed after the ops (TLC prints them as a set)
-	Battery string `json:"battery"` // last | every | none
-	Base    bool   `json:"base"`    // battery "last": also take a silent baseline before a final Handle (C17)
-	Mirror  bool   `json:"mirror"`  // C19: run the desugared program on a second instance
-	Pool    *Pool  `json:"pool"`    // a line holding only "pool" sets the pool for the following cases
-	ID      string `json:"id"`
+	Fam     string   `json:"fam"`
+	Cfg     Cfg      `json:"cfg"`
+	Ops     []Op     `json:"ops"`
+	Progs   [][]Op   `json:"progs"`   // conc family: one op list per goroutine
+	N       int      `json:"n"`       // conc family: logged iterations
+	Stress  int      `json:"stress"`  // conc family: unlogged iterations
+	Procs   int      `json:"procs"`   // conc family: GOMAXPROCS of the child
+	Keys    []string `json:"keys"`    // params family: keys observed after every op
+	Reqs    []Op     `json:"reqs"`    // requests executed after the ops (TLC prints them as a set)
+	Battery string   `json:"battery"` // last | every | none
+	Base    bool     `json:"base"`    // battery "last": also take a silent baseline before a final Handle (C17)
+	Mirror  bool     `json:"mirror"`  // C19: run the desugared program on a second instance
+	Pool    *Pool    `json:"pool"`    // a line holding only "pool" sets the pool for the following cases
+	ID      string   `json:"id"`
 }
 
 // ---------------------------------------------------------------- handlers
@@ -384,6 +386,7 @@ func (e *env) call(w http.ResponseWriter, r *http.Request, rt types.Route, h *H)
 		mux.Trace(w, r, false)
 	case "route":
 		runProg(w, h.prog)
+		e.maybePanic(o, "late:"+o.kind) // a panic AFTER the handler has written its status line
 	}
 }
 
@@ -396,6 +399,8 @@ func runProg(w http.ResponseWriter, prog []Step) {
 			w.WriteHeader(s.N)
 		case "w":
 			w.Write(make([]byte, s.N))
+		case "panic":
+			panic("prog")
 		}
 	}
 }
@@ -458,6 +463,10 @@ func (c *Cfg) options(e *env) []mux.Option {
 	}
 	if c.Domain != "" {
 		opts = append(opts, mux.WithURLDomain(c.Domain))
+	}
+	if c.CorsPre != nil && c.Cors.On {
+		p := c.CorsPre
+		opts = append(opts, mux.WithCORS(p.Origins, p.Allow, p.Expose, p.MaxAge, p.Cred))
 	}
 	if c.Cors.On {
 		opts = append(opts, mux.WithCORS(c.Cors.Origins, c.Cors.Allow, c.Cors.Expose, c.Cors.MaxAge, c.Cors.Cred))
